@@ -67,6 +67,34 @@ Theorem C08_fallback_unknown_offset : forall W h t pid off,
   snd (step W t (ORestore pid off) (final W h)) = Some None.
 Proof. exact fallback_unknown_offset. Qed.
 
+(** An offset whose packet had expired when a clean-up pass ran is unknown from then on: the
+    client falls back (it can never be "recovered" from a log that no longer reaches its offset). *)
+Theorem C08_fallback_collected_offset : forall W h1 tc h2 t pid pre p post,
+  NoDup (map p_id (emitted (h1 ++ (tc, OClean) :: h2))) ->
+  emitted h1 = pre ++ p :: post -> p_at p + W < tc ->
+  snd (step W t (ORestore pid (p_id p)) (final W (h1 ++ (tc, OClean) :: h2))) = Some None.
+Proof. exact fallback_collected_offset. Qed.
+
+(** Socket layer (namespace.add / newServerSocket / onConnect): a socket is marked recovered only
+    if it carries the persisted socket id, re-joins the persisted rooms and is sent exactly the
+    missed packets (followed by the CONNECT packet with the same sid and pid) ... *)
+Theorem C08_recovered_socket : forall W h t pid off fs fp,
+  k_recovered (snd (connect W t pid off fs fp (final W h))) = true ->
+  exists s td pre p post,
+    last_persist pid h None = Some (s, td) /\ t <= td + W /\
+    emitted h = pre ++ p :: post /\ p_id p = off /\
+    snd (connect W t pid off fs fp (final W h)) =
+    mkSock (s_sid s) pid true (s_rooms s ++ [s_sid s])
+           (map FReplay (filter (selected s) post) ++ [FConnect (s_sid s) pid]).
+Proof. exact recovered_socket. Qed.
+
+(** ... and whenever the restore fails the client gets a fresh session marked not recovered: new
+    socket id, new private id, only its own room, nothing replayed. *)
+Theorem C08_fallback_fresh_session : forall W h t pid off fs fp,
+  snd (step W t (ORestore pid off) (final W h)) = Some None ->
+  snd (connect W t pid off fs fp (final W h)) = mkSock fs fp false [fs] [FConnect fs fp].
+Proof. exact fresh_socket. Qed.
+
 (** Liveness: times non-decreasing along the history, the reconnection within the window of the
     session last persisted under [pid], and the offset packet itself not older than the window:
     the session IS recovered (with that session's sid and rooms). *)
